@@ -295,6 +295,9 @@ pub struct VariantD {
     pub index_style: u8,
 }
 
+/// see Program::flat_elems
+pub const MAX_VALUE_ELEMS: u64 = 300_000;
+
 #[derive(Clone, Debug, PartialEq, Eq, Hash, Serialize, Deserialize)]
 pub enum Body {
     Struct(Shape, Vec<FieldD>),
@@ -756,7 +759,7 @@ impl Program {
             s.push_str(&print_def(&self.defs, i));
         }
         let c = self.root_ctx();
-        s.push_str("fn main() {\n    let ents = vsupport::read_entropies();\n    let mut reg = Registry::new();\n");
+        s.push_str("fn main() {\n    // values of nested arrays are built on the stack in an unoptimised build\n    std::thread::Builder::new().stack_size(512 << 20).spawn(real_main).unwrap().join().unwrap_or_else(|_| std::process::exit(101));\n}\nfn real_main() {\n    let ents = vsupport::read_entropies();\n    let mut reg = Registry::new();\n");
         for (k, r) in self.roots.iter().enumerate() {
             s.push_str(&format!("    let id{k} = reg.register_type(&meta_type::<{}>()).id;\n", r.rust(&c)));
         }
@@ -801,7 +804,28 @@ impl Program {
         !r.any(&|t| match t {
             TE::Def(i, _) => !self.def_encodes(*i),
             _ => false,
-        })
+        }) && self.flat_elems(r, 0) <= MAX_VALUE_ELEMS
+    }
+
+    /// upper estimate of how many scalar elements a generated value of the type holds inline
+    /// (arrays multiply); values are only generated below MAX_VALUE_ELEMS so that a case is
+    /// never a multi-megabyte stack object printed as JSON. Types stay unrestricted.
+    pub fn flat_elems(&self, t: &TE, depth: usize) -> u64 {
+        if depth > 6 {
+            return 1;
+        }
+        let sum = |xs: Vec<&TE>| -> u64 { xs.iter().map(|x| self.flat_elems(x, depth)).fold(0u64, |a, b| a.saturating_add(b)).max(1) };
+        match t {
+            TE::Array(a, n) => (*n as u64).saturating_mul(self.flat_elems(a, depth).max(1)),
+            TE::Def(i, args) => {
+                let d = &self.defs[*i];
+                let self_ty = t.clone();
+                d.all_fields().iter().map(|f| self.flat_elems(&f.ty.subst(args, &self_ty), depth + 1)).fold(0u64, |a, b| a.saturating_add(b)).max(1)
+            }
+            // heap containers hold up to a handful of generated elements
+            TE::Vec(_) | TE::VecDeque(_) | TE::Set(_) | TE::Heap(_) | TE::Map(..) | TE::CowSlice(_) | TE::SliceA(_) | TE::SliceStatic(_) => sum(t.children()).saturating_mul(4),
+            _ => sum(t.children()),
+        }
     }
 
     fn def_encodes(&self, i: usize) -> bool {
